@@ -32,7 +32,7 @@ def bounds(tier):
 
 
 def jobs(tier, seed):
-    n = 16 if tier == "quick" else 96
+    n = 31 if tier == "quick" else 96
     js = [{"sub": "pairs", "chunk": i, "of": n} for i in range(n)]
     js.append({"sub": "pairs", "chunk": 0, "of": n, "hashseed": 1 + seed % 1000, "primary": False})
     return js
@@ -175,6 +175,8 @@ def c0_space(tier):
     for I, G, types in b["c0"]:
         for gates in space.circuits(I, G, types=types or space.ALL_GATES, max_arity=3 if types is None else 2, min_gates=1):
             yield space.to_desc(I, gates, outputs="gates", name="c0")
+    for gates in space.circuits(1, 2, types=("and", "xor", "not"), max_arity=2, consts=("0", "1"), min_gates=2):
+        yield space.to_desc(1, gates, consts=("0", "1"), outputs="gates", name="c0")
     I, G = b["feedthrough"]
     for gates in space.circuits(I, G, max_arity=2, min_gates=1):
         yield space.to_desc(I, gates, outputs="all", name="c0")
